@@ -294,6 +294,9 @@ func runPipeScenario(r *rand.Rand, kr *keyring, w *ndWriter, idx int) {
 			if doRead {
 				capn := []int{1, 2, 5, 6, 100, 1500, 16389, 70000}[r.Intn(8)]
 				buf := make([]byte, capn)
+				if r.Intn(3) == 0 {
+					otherConnection(kr, ch1rec) // the process serves other connections between this connection's calls
+				}
 				n, err := conn.Read(buf)
 				got = append(got, buf[:n]...)
 				cmp := bytes.Clone(got)
